@@ -412,6 +412,35 @@ def run(ctx):
                      "llguidance::earley::regexvec::RegexVec::enter_error_state"} and bool(ee), "C20-R5", "lexer-error:setters",
               "the lexer error state is entered from %s" % sorted(x.rsplit("::", 1)[1] for x in ee), "unexpected setters of the lexer error state: %s" % sorted(ee))
 
+    # ------------------------------------------------------------------ R7 the per-step item budget bounds the forcing loop
+    # `force_bytes` pushes forced bytes in a loop that ends only when forced_byte() has no answer or a push is refused; for
+    # an infinitely forced grammar (start: "a" start) the refusal comes from the item budget set by with_items_limit.  So:
+    # (a) the loop runs under with_items_limit, (b) advance_parser refuses *in every mode* once all_items > max_all_items:
+    # its row-producing work is dominated by the budget-ok edge, not only in speculative mode.
+    STATS = "llguidance::earley::parser::ParserStats"
+    fbc = ctx.body(PS + "::force_bytes::{closure#0}")
+    fbo = ctx.body(PS + "::force_bytes")
+    wl = fbo.call_blocks(PS + "::with_items_limit")
+    ok = bool(wl) and any(fbc.id in L._closures_in(fbo.expr(a)) for bi in wl for a in fbo.blocks[bi]["term"]["args"])
+    ctx.check(ok and bool(fbc.call_blocks(PS + "::forced_byte")), "C20-R7", "force_bytes:loop-under-item-limit",
+              "the forced-byte loop is the closure run by with_items_limit(step_max_items, ..)",
+              "force_bytes no longer runs its forcing loop under with_items_limit: an infinitely forced grammar loops forever", site=fbo.where())
+    ap = ctx.body(PS + "::advance_parser")
+    budget_ok = L.guard_edges_multi(ap, [
+        (lambda e: e[0] == "bin" and e[1] == "Gt" and L.is_field_read(STATS, "all_items")(L.strip_wrappers(e[2])) and L.is_field_read(PS, "max_all_items")(L.strip_wrappers(e[3])), False),
+        (lambda e: e[0] == "bin" and e[1] == "Le" and L.is_field_read(STATS, "all_items")(L.strip_wrappers(e[2])) and L.is_field_read(PS, "max_all_items")(L.strip_wrappers(e[3])), True)])
+    work = ap.call_blocks(lambda d: d in (PS + "::scan", PS + "::lexer_state_for_added_row"))
+    still = L.dominated_by_cut(ap, work, budget_ok) if budget_ok else work
+    ctx.check(bool(work) and bool(budget_ok) and not still, "C20-R7", "advance_parser:budget-in-every-mode",
+              "scan / row creation are dominated by `all_items <= max_all_items` on every path (definitive and speculative)",
+              "advance_parser can add rows although the item budget is exhausted (the budget test is bypassed on some path, e.g. in "
+              "definitive mode): force_bytes' loop is then unbounded for an infinitely forced grammar", site=ap.where(still[0]) if still else ap.where())
+    wil = ctx.body(PS + "::with_items_limit")
+    sets = [bi for bi, (w, m, r) in P.block_effects(wil).items() if (PS, "max_all_items") in w]
+    ctx.check(len(sets) >= 2 and bool(L.guard_edges(wil, lambda e: e[0] == "bin" and e[1] == "Gt" and L.is_field_read(STATS, "all_items")(L.strip_wrappers(e[2])), True)),
+              "C20-R7", "with_items_limit:sets-reports-resets", "with_items_limit sets the budget, reports an overrun as a parser error, and resets it",
+              "with_items_limit no longer sets/reports/resets the item budget", site=wil.where())
+
     # ------------------------------------------------------------------ R6 token id range checks
     vt = ctx.body(TP + "::validate_tokens_raw")
     work = vt.call_blocks("llguidance::earley::parser::Parser::validate_tokens")
